@@ -538,6 +538,11 @@ func genTmplCase(r *Rng, out *outFiles) {
 				c07 = fmt.Sprintf("fragment %q is defined in the loaded files but GetTemplate fails: %s", fn, renderClass(err))
 			}
 		}
+		for _, nn := range []string{"nosuch", "100%.html", "%v", "a%sb"} {
+			if _, err := m.GetTemplate(nn); !errors.Is(err, html.ErrTplNotFound) && c07 == "" {
+				c07 = fmt.Sprintf("unknown name %q is not a template-not-found error: %v", nn, err)
+			}
+		}
 		for _, fl := range ts.Files {
 			if _, err := m.GetTemplate(fl[0]); err != nil && c07 == "" {
 				c07 = fmt.Sprintf("file %q was loaded but GetTemplate fails: %s", fl[0], renderClass(err))
